@@ -90,6 +90,7 @@ impl Typed for C33 {
             clock: case.clock.iter().map(|c| base + c).collect(),
             spurious_cas: case.spurious_cas,
             max_steps: 10_000,
+            rand_bits: None,
         };
         let res = e2::run_threads(case.seed, ctx, bodies, opts);
         for (msg, loc) in &res.panics {
